@@ -1,8 +1,8 @@
 (* C02 — property theorems. Statements only, each closed by `exact <lemma>`; Print Assumptions beneath;
    non-vacuity examples. *)
 From Coq Require Import List NArith Sorting.Sorted.
-From C02 Require Import Model ModelTx CaseDefs ProofsNodes ProofsBorders ProofsIterate ProofsFold ProofsLeaf ProofsSearch
-     ProofsTx ProofsTx2 ProofsTx3.
+From C02 Require Import Model ModelTx ModelSealed CaseDefs ProofsNodes ProofsBorders ProofsIterate ProofsFold ProofsLeaf
+     ProofsSearch ProofsTx ProofsTx2 ProofsTx3 ProofsSealedIds ProofsSealed ProofsClamp.
 Import ListNotations.
 Open Scope N_scope.
 
@@ -195,6 +195,139 @@ Theorem C02_hist_exact_tx :
   hist_tx (run ops) q from to rev hist = Ok (hist_spec (docs_of ops) q from to hist).
 Proof. exact (fun f => @hist_tx_script (Build_Matcher f)). Qed.
 Print Assumptions C02_hist_exact_tx.
+
+(* ================= the provider's clamp (ModelSealed.v: clamp, info_of, provider_search, provider_search_tx) ================= *)
+
+(* thm:C02_clamp_irrelevant — activeDataProvider.Search replaces [from,to] by [max(from, Info.From), min(to, Info.To)]
+   before getLIDsBorders. For EVERY matcher, corpus and request: whenever Info covers the stored MIDs (Info.From <=
+   every MID <= Info.To — what NewInfo + UpdateStats establish once appends are acknowledged: C17/C14), the search
+   and the histogram over the clamped range equal those over the requested range (also when the clamped range is
+   empty or inverted: from > to, request wholly outside Info). *)
+Theorem C02_clamp_irrelevant :
+  forall (tok_match : pat -> tok -> bool), let tm := Build_Matcher tok_match in
+  forall inf c q from to rev limit wt hist,
+  Forall ok_doc c -> NoDup (map did c) -> N.of_nat (length c) + 1 < 4294967296 ->
+  (forall d, In d c -> fst inf <= dmid d /\ dmid d <= snd inf) ->
+  search_model (tm := tm) c q (fst (clamp inf from to)) (snd (clamp inf from to)) rev limit wt hist =
+    search_model (tm := tm) c q from to rev limit wt hist /\
+  hist_prepared (tm := tm) (prepare c) q (fst (clamp inf from to)) (snd (clamp inf from to)) rev hist =
+    hist_prepared (tm := tm) (prepare c) q from to rev hist.
+Proof. exact (fun f => @clamp_irrelevant (Build_Matcher f)). Qed.
+Print Assumptions C02_clamp_irrelevant.
+
+(* the MIN/MAX that NewInfo (From = 2^64-1, To = 0) and UpdateStats compute do cover the corpus *)
+Theorem C02_info_covers :
+  forall c d, In d c -> fst (info_of c) <= dmid d /\ dmid d <= snd (info_of c).
+Proof. exact info_covers. Qed.
+Print Assumptions C02_info_covers.
+
+(* the whole provider: a fraction WITHOUT documents answers through EmptyDataProvider (no IDs, Total 0 — which is the
+   specification over the empty corpus; its Info.From = 2^64-1 > Info.To = 0 is never used); otherwise clamp to the
+   computed Info and search. Both equal the specification over the requested range. *)
+Theorem C02_provider_exact :
+  forall (tok_match : pat -> tok -> bool), let tm := Build_Matcher tok_match in
+  forall c q from to rev limit wt hist,
+  Forall ok_doc c -> NoDup (map did c) -> N.of_nat (length c) + 1 < 4294967296 ->
+  provider_search (tm := tm) c q from to rev limit wt hist = Ok (search_spec (tm := tm) c q from to rev limit wt).
+Proof. exact (fun f => @provider_exact (Build_Matcher f)). Qed.
+Print Assumptions C02_provider_exact.
+
+(* the same over the TRANSCRIBED active index, after any history of bulks and searches *)
+Theorem C02_provider_exact_tx :
+  forall (tok_match : pat -> tok -> bool), let tm := Build_Matcher tok_match in
+  forall ops q from to rev limit wt hist,
+  Forall ok_doc (docs_of ops) -> NoDup (map did (docs_of ops)) -> N.of_nat (length (docs_of ops)) + 1 < 4294967296 ->
+  provider_search_tx (tm := tm) ops q from to rev limit wt hist
+    = Ok (search_spec (tm := tm) (docs_of ops) q from to rev limit wt) /\
+  provider_hist_tx (tm := tm) ops q from to rev hist = Ok (hist_spec (tm := tm) (docs_of ops) q from to hist).
+Proof. exact (fun f => @provider_tx_exact (Build_Matcher f)). Qed.
+Print Assumptions C02_provider_exact_tx.
+
+(* ================= the SEALED fraction by transcription (ModelSealed.v, SealedLids.v) ================= *)
+
+(* sealedIDsIndex.LessOrEqual — block index lid / IDsPerBlock, "block minimum > id => false", "previous block's
+   minimum <= id => true", else MID/RID from the block with the RID = 2^64-1 shortcut — equals the plain comparison
+   of the ID stored at that LID, for EVERY block size ipb >= 1, every ID-descending table of uint64 IDs and every
+   LID >= 1 (beyond the table both say "true"). *)
+Theorem C02_sealed_le_plain :
+  forall ipb tab, 1 <= ipb -> desc_table tab -> Forall ok_doc64 tab -> forall lid x, 1 <= lid ->
+    sealed_le (seal_ids ipb tab) lid x = lid_le tab lid x.
+Proof. exact sealed_le_eq. Qed.
+Print Assumptions C02_sealed_le_plain.
+
+(* thm:C02_search_exact_sealed — for EVERY matcher, every ID block size ipb >= 1 and LID block capacity cap >= 1,
+   every corpus (hypotheses of C02_search_exact, MIDs within uint64, fewer than 2^32-1 distinct tokens), query,
+   [from,to], order, limit, total/histogram request: the sealed search as transcribed — sorted IDs behind the system
+   ID cut into blocks (getIDsBlocksGenerator) with their minima, getLIDsBorders over sealedIDsIndex.LessOrEqual,
+   the dictionary in (field, token) order, every token's postings written by getLIDsBlockGenerator into blocks of
+   cap LIDs (continued blocks, field ends), Chunks.Pack/unpack, lids.Table rebuilt from the registry words, one
+   IteratorDesc / IteratorAsc per matching TID clipped to [minLID,maxLID] (narrowLIDsRange, HasTIDInNext/PrevBlock),
+   BuildORTree over them, the merge nodes, iterateEvalTree reading MID/RID through the ID blocks — terminates without
+   panic and returns exactly the specification. *)
+Theorem C02_search_exact_sealed :
+  forall (tok_match : pat -> tok -> bool), let tm := Build_Matcher tok_match in
+  forall ipb cap c, 1 <= ipb -> 1 <= cap ->
+  Forall ok_doc64 c -> NoDup (map did c) -> N.of_nat (length c) + 1 < 4294967296 ->
+  N.of_nat (length (svocab (table c))) < 4294967295 ->
+  forall from to q rev limit wt hist,
+    search_sealed (tm := tm) ipb cap c q from to rev limit wt hist = Ok (search_spec (tm := tm) c q from to rev limit wt).
+Proof. exact (fun f => @search_sealed_exact (Build_Matcher f)). Qed.
+Print Assumptions C02_search_exact_sealed.
+
+Theorem C02_hist_exact_sealed :
+  forall (tok_match : pat -> tok -> bool), let tm := Build_Matcher tok_match in
+  forall ipb cap c, 1 <= ipb -> 1 <= cap ->
+  Forall ok_doc64 c -> NoDup (map did c) -> N.of_nat (length c) + 1 < 4294967296 ->
+  N.of_nat (length (svocab (table c))) < 4294967295 ->
+  forall from to q rev hist,
+    hist_sealed (tm := tm) ipb cap c q from to rev hist = Ok (hist_spec (tm := tm) c q from to hist).
+Proof. exact (fun f => @hist_sealed_exact (Build_Matcher f)). Qed.
+Print Assumptions C02_hist_exact_sealed.
+
+(* link to the correspondence run: a CSealed request answered as the specification says passes both verdicts *)
+Theorem C02_sealed_case_ok :
+  forall ipb cap c from to q rev limit wt hist,
+  1 <= ipb -> 1 <= cap -> Forall ok_doc64 c -> NoDup (map did c) -> N.of_nat (length c) + 1 < 4294967296 ->
+  N.of_nat (length (svocab (table c))) < 4294967295 ->
+  let '(ids, total) := search_spec c q from to rev limit wt in
+  let s := SQ q q from to rev limit wt hist ids total (hist_spec c q from to hist) in
+  case_agrees (CSealed ipb cap c [s]) = true /\ case_spec_ok (CSealed ipb cap c [s]) = true.
+Proof. exact sealed_case_ok. Qed.
+Print Assumptions C02_sealed_case_ok.
+
+(* non-vacuity of the sealed / clamp / leaf-language theorems: the six-document corpus below (ex_corpus2: tokens
+   "a", "ab", "aba", "b", numbers "7", "-3", "12", "x7"); ID blocks of 2, LID blocks of 3 (so both straddle); a
+   wildcard with a middle and overlapping prefix/suffix (a*a does not match "a"), a numeric range with an open and an
+   unbounded end ("x7" is not a number), a text range, an in-list under NOT; a request reaching outside Info *)
+Definition ex_corpus2 : list doc :=
+  [Doc 10 5 [(0, [97]); (1, [55])]; Doc 12 1 [(0, [97; 98]); (1, [45; 51])]; Doc 11 7 [(0, [97; 98; 97]); (1, [49; 50])];
+   Doc 11 2 [(0, [98]); (0, [97])]; Doc 11 9 [(0, [98]); (1, [120; 55])]; Doc 13 4 [(0, [97; 98; 97]); (1, [55]); (0, [97])]].
+Definition ex_q_glob : query := QLeaf (PGlob 0 [TText [97]; TStar; TText [97]]).
+Definition ex_q_num : query := QLeaf (PRange 1 RUnb (RVal [49; 50]) true false).
+Definition ex_q_text : query := QLeaf (PRange 0 (RVal [97; 98]) (RVal [98]) true false).
+Definition ex_q_in : query := QNot (QLeaf (PIn 0 [[TText [98]]; [TText [97]; TStar; TText [98]]])).
+
+Example C02_sealed_nonvacuous :
+  Forall ok_doc64 ex_corpus2 /\ NoDup (map did ex_corpus2) /\
+  N.of_nat (length (svocab (table ex_corpus2))) < 4294967295 /\
+  search_sealed 2 3 ex_corpus2 ex_q_glob 0 100 false 10 true 0 = Ok ([(13, 4); (11, 7)], 2) /\
+  search_sealed 2 3 ex_corpus2 ex_q_num 0 100 true 10 true 0 = Ok ([(10, 5); (12, 1); (13, 4)], 3) /\
+  search_sealed 2 3 ex_corpus2 ex_q_text 11 12 false 1 true 0 = Ok ([(12, 1)], 2) /\
+  search_sealed 1 1 ex_corpus2 ex_q_in 0 100 false 10 true 0 = Ok ([(13, 4); (11, 7); (10, 5)], 3) /\
+  search_sealed 1 1 ex_corpus2 ex_q_in 0 100 false 10 true 0 = Ok (search_spec ex_corpus2 ex_q_in 0 100 false 10 true) /\
+  hist_sealed 2 3 ex_corpus2 ex_q_num 0 100 true 2 = Ok [(10, 1); (12, 2)].
+Proof.
+  split. { repeat constructor; vm_compute; congruence. }
+  split. { unfold ex_corpus2. cbv [map did dmid drid]. repeat (apply NoDup_cons; [simpl; intuition congruence|]). apply NoDup_nil. }
+  repeat split; vm_compute; reflexivity.
+Qed.
+
+Example C02_clamp_nonvacuous :
+  info_of ex_corpus2 = (10, 13) /\ clamp (info_of ex_corpus2) 5 12 = (10, 12) /\ clamp (info_of ex_corpus2) 20 30 = (20, 13) /\
+  provider_search ex_corpus2 ex_q_num 5 12 false 10 true 0 = Ok ([(12, 1); (10, 5)], 2) /\
+  provider_search ex_corpus2 ex_q_num 20 30 false 10 true 0 = Ok ([], 0) /\
+  provider_search [] ex_q_num 0 100 false 10 true 0 = Ok ([], 0) /\ info_of [] = (18446744073709551615, 0).
+Proof. repeat split; vm_compute; reflexivity. Qed.
 
 (* non-vacuity: two bulks out of time order, a search in between (so the second bulk's queues merge into
    non-empty sorted lists), a document repeating a token *)
